@@ -109,8 +109,9 @@ def c20_leaf(tname: str, which: str, va: int, vb: int, **leaves) -> str:
                 return f"circuit equal to {other!r}"
         except Exception as ex:
             return f"comparison with {other!r} raised {exc(ex)}"
-    ma, _ = try_impl(ca)
-    mb, _ = try_impl(cb)
+    # meanings from the program texts (reference), so that a builder that conflates two programs cannot hide it
+    ma, _ = try_ref(sa)
+    mb, _ = try_ref(sb)
     decl_same = (sa[1:_nhead(sa)] == sb[1:_nhead(sb)])
     if e1:
         if not decl_same:
@@ -211,8 +212,8 @@ def c20_struct(tname: str, m_kind: str, m_site: int, **leaves) -> str:
     e1, e2 = (c == m), (m == c)
     if e1 != e2:
         return f"equality is not symmetric :: {sx} / {mx}"
-    ma, _ = try_impl(c)
-    mb, _ = try_impl(m)
+    ma, _ = try_ref(sx)
+    mb, _ = try_ref(mx)
     macros_same = [s for s in sx[1:] if s[0] == "macro"] == [s for s in mx[1:] if s[0] == "macro"]
     if e1 and (not macros_same or (ma is not None and mb is not None and not R.same(ma, mb))):
         return f"mutant ({mut}#{k}) compares equal :: {sx} / {mx}"
